@@ -94,7 +94,7 @@ impl Monitor for C18 {
         "C18"
     }
     fn rule(&self) -> String {
-        "cases = seeded histories of 50..2000 Pool operations (intern_string / intern_package_name / lookup_package_name / intern_version_set / intern_solvable / intern_version_set_union with heap-carrying values drawn from small key domains so that repeats are frequent), checked against a HashMap+Vec reference model after every operation: equal values -> same id, different values -> different ids, resolve(id) == interned value, solvable and union ids dense and unique. EVERY reference ever returned (&str, &String, &VS, &Solvable) is kept alive and re-read against its expected value periodically and at the end, so an element that moved on growth is a detectable dangling reference (reported by Miri / ASan, or as a content mismatch). distinct = hash of the operation list; non-trivial = history crossing >= 2 chunk boundaries (128) in some arena while >= 100 references are held".into()
+        "cases = seeded histories of 50..2000 (one in eighty: 13 000..40 000) Pool operations (intern_string / intern_package_name / lookup_package_name / intern_version_set / intern_solvable / intern_version_set_union with heap-carrying values drawn from small key domains so that repeats are frequent), checked against a HashMap+Vec reference model after every operation: equal values -> same id, different values -> different ids, resolve(id) == interned value, solvable and union ids dense and unique. The ADDRESS at which every name / version set / solvable was first resolved must be the address a later resolve of the same id gives (an element that moved is reported without touching the dangling reference). EVERY reference ever returned (&str, &String, &VS, &Solvable) is kept alive and re-read against its expected value periodically and at the end, so an element that moved on growth is a detectable dangling reference (reported by Miri / ASan, or as a content mismatch). distinct = hash of the operation list; non-trivial = history crossing >= 2 chunk boundaries (128) in some arena while >= 100 references are held".into()
     }
     fn cases(&self, tier: Tier) -> u64 {
         tier.pick(8_000, 160_000)
@@ -132,12 +132,20 @@ impl Monitor for C18 {
             }
             return C18Case { ops, revalidate_every: 64 };
         }
-        let len = match r.below(4) {
-            0 => 50 + r.below(150),
-            1 => 200 + r.below(400),
-            _ => 600 + r.below(1400),
+        // one history in eighty is a BULK history: 13 000..40 000 operations over a key domain so
+        // large that most of them intern something new (arenas grow to tens of thousands of items,
+        // far beyond any fixed number of chunks / any cap on a chunk size)
+        let bulk = r.chance(1, 80);
+        let len = if bulk {
+            13_000 + r.below(27_000)
+        } else {
+            match r.below(4) {
+                0 => 50 + r.below(150),
+                1 => 200 + r.below(400),
+                _ => 600 + r.below(1400),
+            }
         } as usize;
-        let dom = 20 + r.below(600) as u32;
+        let dom = if bulk { 30_000 + r.below(40_000) as u32 } else { 20 + r.below(600) as u32 };
         let mut ops = vec![];
         let mut nvs = 0u32;
         for _ in 0..len {
@@ -159,7 +167,7 @@ impl Monitor for C18 {
                 }
             });
         }
-        C18Case { ops, revalidate_every: 16 + r.below(100) as usize }
+        C18Case { ops, revalidate_every: if bulk { 2_500 + r.below(2_000) as usize } else { 16 + r.below(100) as usize } }
     }
     fn check(&self, c: &C18Case, ctx: &mut Ctx) {
         use std::hash::{Hash, Hasher};
@@ -197,7 +205,7 @@ impl Monitor for C18 {
 }
 
 /// Names interned as a side effect of other operations obey the same rules as `Op::Name`.
-fn check_name<N: NameLike>(m: &mut HashMap<N, NameId>, s: N, id: NameId, bad: &mut impl FnMut(&str, String)) {
+fn check_name<N: NameLike>(m: &mut HashMap<N, NameId>, ids: &mut std::collections::HashSet<u32>, s: N, id: NameId, bad: &mut impl FnMut(&str, String)) {
     match m.get(&s) {
         Some(&prev) => {
             if prev != id {
@@ -205,8 +213,9 @@ fn check_name<N: NameLike>(m: &mut HashMap<N, NameId>, s: N, id: NameId, bad: &m
             }
         }
         None => {
-            if let Some((o, _)) = m.iter().find(|(_, v)| **v == id) {
-                bad("different package names share an id", format!("{s:?} and {o:?} -> {}", id.0));
+            if !ids.insert(id.0) {
+                let o = m.iter().find(|(_, v)| **v == id).map(|(o, _)| format!("{o:?}")).unwrap_or_default();
+                bad("different package names share an id", format!("{s:?} and {o} -> {}", id.0));
             }
             m.insert(s, id);
         }
@@ -219,6 +228,10 @@ fn run_history<N: NameLike>(c: &C18Case, vio: &mut Vec<(String, String)>, stats:
     let mut m_str: HashMap<String, StringId> = HashMap::new();
     let mut m_name: HashMap<N, NameId> = HashMap::new();
     let mut m_vs: HashMap<(NameId, Vs), VersionSetId> = HashMap::new();
+    // ids handed out so far (so that "two values share an id" is a constant-time question)
+    let mut ids_str: std::collections::HashSet<u32> = Default::default();
+    let mut ids_name: std::collections::HashSet<u32> = Default::default();
+    let mut ids_vs: std::collections::HashSet<u32> = Default::default();
     let mut vs_list: Vec<VersionSetId> = vec![];
     let mut n_solv = 0u32;
     let mut n_union = 0u32;
@@ -228,6 +241,12 @@ fn run_history<N: NameLike>(c: &C18Case, vio: &mut Vec<(String, String)>, stats:
     let mut r_vs: Vec<(&Vs, Vs)> = vec![];
     let mut r_solv: Vec<(&resolvo::utils::Pool<Vs, N>, SolvableId, NameId, Rec)> = vec![];
     let mut r_solv_ref: Vec<(&Rec, Rec)> = vec![];
+    // where each value lived when it was first resolved: resolving the same id again must give the
+    // same address for as long as the pool lives (checked without touching the old reference)
+    let mut a_name: Vec<(NameId, usize)> = vec![];
+    let mut a_vs: Vec<(VersionSetId, usize)> = vec![];
+    let mut a_solv: Vec<(SolvableId, usize)> = vec![];
+    let mut moved = false;
     let mut bad = |k: &str, d: String| {
         if vio.len() < 20 {
             vio.push((k.to_string(), d))
@@ -235,6 +254,32 @@ fn run_history<N: NameLike>(c: &C18Case, vio: &mut Vec<(String, String)>, stats:
     };
     macro_rules! revalidate {
         () => {
+            for &(id, addr) in &a_name {
+                stats.1 += 1;
+                if pool.resolve_package_name(id) as *const N as usize != addr {
+                    moved = true;
+                    bad("an interned package name moved in memory after later insertions (references to it dangle)", format!("name id {}", id.0));
+                    break;
+                }
+            }
+            for &(id, addr) in &a_vs {
+                stats.1 += 1;
+                if pool.resolve_version_set(id) as *const Vs as usize != addr {
+                    moved = true;
+                    bad("an interned version set moved in memory after later insertions (references to it dangle)", format!("version set id {}", id.0));
+                    break;
+                }
+            }
+            for &(id, addr) in &a_solv {
+                stats.1 += 1;
+                if &pool.resolve_solvable(id).record as *const Rec as usize != addr {
+                    moved = true;
+                    bad("an interned solvable moved in memory after later insertions (references to it dangle)", format!("solvable id {}", id.0));
+                    break;
+                }
+            }
+            // the old references are only read while nothing is known to have moved
+            if !moved {
             for (r, e) in &r_str {
                 stats.1 += 1;
                 if *r != e.as_str() {
@@ -259,6 +304,7 @@ fn run_history<N: NameLike>(c: &C18Case, vio: &mut Vec<(String, String)>, stats:
                     bad("held solvable record reference changed after later insertions", format!("expected {e:?} got {r:?}"));
                 }
             }
+            }
         };
     }
     for (i, op) in c.ops.iter().enumerate() {
@@ -273,7 +319,8 @@ fn run_history<N: NameLike>(c: &C18Case, vio: &mut Vec<(String, String)>, stats:
                         }
                     }
                     None => {
-                        if let Some((o, _)) = m_str.iter().find(|(_, v)| **v == id) {
+                        if !ids_str.insert(id.0) {
+                            let o = m_str.iter().find(|(_, v)| **v == id).map(|(o, _)| o.clone()).unwrap_or_default();
                             bad("different strings share an id", format!("{s:?} and {o:?} -> {}", id.0));
                         }
                         m_str.insert(s.clone(), id);
@@ -295,8 +342,9 @@ fn run_history<N: NameLike>(c: &C18Case, vio: &mut Vec<(String, String)>, stats:
                         }
                     }
                     None => {
-                        if let Some((o, _)) = m_name.iter().find(|(_, v)| **v == id) {
-                            bad("different package names share an id", format!("{s:?} and {o:?} -> {}", id.0));
+                        if !ids_name.insert(id.0) {
+                            let o = m_name.iter().find(|(_, v)| **v == id).map(|(o, _)| format!("{o:?}")).unwrap_or_default();
+                            bad("different package names share an id", format!("{s:?} and {o} -> {}", id.0));
                         }
                         m_name.insert(s.clone(), id);
                     }
@@ -305,6 +353,7 @@ fn run_history<N: NameLike>(c: &C18Case, vio: &mut Vec<(String, String)>, stats:
                 if *r != s {
                     bad("resolve_package_name returns something else than was interned", format!("{s:?} -> {r:?}"));
                 }
+                a_name.push((id, r as *const N as usize));
                 r_name.push((r, s));
             }
             Op::LookupName(k) => {
@@ -316,7 +365,7 @@ fn run_history<N: NameLike>(c: &C18Case, vio: &mut Vec<(String, String)>, stats:
             }
             Op::Vs(nk, vk) => {
                 let name = pool.intern_package_name(N::make(name_of(*nk)));
-                check_name(&mut m_name, N::make(name_of(*nk)), name, &mut bad);
+                check_name(&mut m_name, &mut ids_name, N::make(name_of(*nk)), name, &mut bad);
                 let vs = vs_of(*vk);
                 let id = pool.intern_version_set(name, vs.clone());
                 match m_vs.get(&(name, vs.clone())) {
@@ -326,7 +375,7 @@ fn run_history<N: NameLike>(c: &C18Case, vio: &mut Vec<(String, String)>, stats:
                         }
                     }
                     None => {
-                        if m_vs.values().any(|v| *v == id) {
+                        if !ids_vs.insert(id.0) {
                             bad("different version sets share an id", format!("{:?} -> {}", vs.label, id.0));
                         }
                         m_vs.insert((name, vs.clone()), id);
@@ -337,11 +386,12 @@ fn run_history<N: NameLike>(c: &C18Case, vio: &mut Vec<(String, String)>, stats:
                 if *r != vs || pool.resolve_version_set_package_name(id) != name {
                     bad("resolve_version_set returns something else than was interned", format!("{:?}", vs.label));
                 }
+                a_vs.push((id, r as *const Vs as usize));
                 r_vs.push((r, vs));
             }
             Op::Solvable(nk, rec) => {
                 let name = pool.intern_package_name(N::make(name_of(*nk)));
-                check_name(&mut m_name, N::make(name_of(*nk)), name, &mut bad);
+                check_name(&mut m_name, &mut ids_name, N::make(name_of(*nk)), name, &mut bad);
                 let record = Rec(*rec, format!("record-{rec}-{}", "r".repeat((*rec % 29) as usize)));
                 let id = pool.intern_solvable(name, record.clone());
                 if id.0 != n_solv {
@@ -352,6 +402,7 @@ fn run_history<N: NameLike>(c: &C18Case, vio: &mut Vec<(String, String)>, stats:
                 if s.name != name || s.record != record {
                     bad("resolve_solvable returns something else than was interned", format!("id {}", id.0));
                 }
+                a_solv.push((id, &s.record as *const Rec as usize));
                 r_solv_ref.push((&s.record, record.clone()));
                 r_solv.push((&pool, id, name, record));
             }
